@@ -22,6 +22,8 @@ import (
 	"strconv"
 	"strings"
 	"sync"
+
+	"github.com/vedadiyan/genql/compare"
 )
 
 // All type definitions
@@ -622,7 +624,7 @@ func Reader(data any, selectors []any) (any, error) {
 									}
 								default:
 									{
-										copy[selector.GetKey()] = fmt.Sprintf("%v", value)
+										copy[selector.GetKey()] = compare.Text(value)
 									}
 								}
 
@@ -736,7 +738,7 @@ func Distinct(data any) (any, error) {
 			mapper := make(map[string]bool)
 			for _, item := range data {
 				sha256 := sha256.New()
-				_, err := sha256.Write([]byte(fmt.Sprintf("%v", item)))
+				_, err := sha256.Write([]byte(compare.Text(item)))
 				if err != nil {
 					return nil, err
 				}
